@@ -136,6 +136,14 @@ def fnDiff (m f : Function) : String :=
     | some (a, _) => s!"block {a.index}"
     | none => if m.cfg.nextIndex ≠ f.cfg.nextIndex then "next-index" else "other"
 
+/-- the hypothesis of the theorems of Props/C06Asm.lean, evaluated on the dumped translation results: every
+    instruction graph satisfies C15's `WF` -/
+def illFormedGraph (tb : List (Nat × BTR)) : Option String :=
+  tb.findSome? fun (_, r) => r.instrs.findSome? fun g =>
+    match CfgEdit.wfProblems g.cfg with
+    | [] => none
+    | ps => some s!"ill-formed-instruction-graph {Fil.hex g.addr} {ps}"
+
 /-- `none` = the model reproduces falcon's function -/
 def asmCheck (req ans : String) : Option String :=
   match splitBar req, splitBar ans with
@@ -155,6 +163,9 @@ def asmCheck (req ans : String) : Option String :=
           | some (some r) => some (.ok r)
           | some none => none
           | none => some (.err .other)
+        match illFormedGraph tb with
+        | some w => some w
+        | none =>
         match Assemble.discover oracle manual entry (4 * tr.length + 16) with
         | .ok tb' =>
           if tb'.map (·.1) ≠ tb.map (·.1) then
